@@ -163,10 +163,20 @@ func ViewMatrix() *m.Design {
 	get := func(name, view string, t string) *m.Method {
 		return &m.Method{Name: name, Result: m.UserRef(t), ResultView: view, HTTP: &m.HTTPEndpoint{Routes: []m.Route{{Verb: "GET", Path: "/" + name}}}}
 	}
+	// a viewed result whose attributes travel in a cookie and a header as well as in the body
+	session := &m.UserType{Name: "Session", Var: "vsession", Result: true, Identifier: "application/vnd.matrix.session",
+		Attr: obj(fld("id", str(), true), fld("token", str(), true), fld("lang", str(), false), fld("note", str(), false)),
+		Views: []*m.View{
+			{Name: "default", Fields: vf("id", "", "token", "", "lang", "", "note", "")},
+			{Name: "tiny", Fields: vf("id", "", "token", "", "lang", "")},
+		}}
+	getSession := get("getsession", "", "Session")
+	getSession.HTTP.Responses = []*m.Response{{Status: 200, Cookies: []m.Mapping{{Attr: "token", Wire: "SID"}}, Headers: []m.Mapping{{Attr: "lang", Wire: "X-Lang"}}}}
 	return &m.Design{API: m.API{Name: "viewmatrix", Title: "View matrix"},
-		Types:    []*m.UserType{leaf, tree, trees, solo, solos},
-		Services: []*m.Service{{Name: "viewmatrix", HasHTTP: true, Methods: []*m.Method{get("get", "", "Tree"), get("getalt", "alt", "Tree"), get("getrev", "rev", "Tree"), get("list", "", "TreeCollection"), get("getsolo", "", "Solo"), get("listsolos", "", "SoloCollection")}}},
-		Features: []string{"fixed-design:view-matrix", "result-type", "views", "nested-view-override", "sibling-nested-views", "collection"}}
+		Types: []*m.UserType{leaf, tree, trees, solo, solos, session},
+		// getlate: a method that leaves the view to the service, declared after methods that fix one for the same type
+		Services: []*m.Service{{Name: "viewmatrix", HasHTTP: true, Methods: []*m.Method{get("get", "", "Tree"), get("getalt", "alt", "Tree"), get("getrev", "rev", "Tree"), get("getlate", "", "Tree"), get("list", "", "TreeCollection"), get("getsolo", "", "Solo"), get("listsolos", "", "SoloCollection"), getSession}}},
+		Features: []string{"fixed-design:view-matrix", "result-type", "views", "nested-view-override", "sibling-nested-views", "collection", "viewed-result-in-cookie-and-header", "view-left-open-after-fixed-view"}}
 }
 
 // GRPCMatrix is a fixed gRPC design crossing the message shapes random designs
